@@ -34,6 +34,7 @@ type Explorer struct {
 	States      int64 // distinct state keys expanded
 	Transitions int64 // decisions taken over all executions
 	CacheHits   int64
+	BoundCuts   int64 // alternatives not taken because the deviation bound was reached (0 = the search was exhaustive)
 	Capped      bool
 	Outcomes    map[string]int64 // distinct oracle-visible outcomes (verdict kind + logs)
 	Findings    []Finding
@@ -133,6 +134,9 @@ func (x *Explorer) explore(prefix []int, used int) {
 				x.States++
 			}
 			x.seen[d.Key] = rem
+		}
+		if d.N > 1 && u+1 > x.Bound {
+			x.BoundCuts += int64(d.N - 1)
 		}
 		if d.N > 1 && u+1 <= x.Bound {
 			base := make([]int, i, i+1)
